@@ -82,11 +82,11 @@ fn key_form(c: &Call) -> String {
 }
 
 pub fn check(c: &Call, receivers: &[(&str, &MCTPSMBusContext)], rep: &mut Report) {
-    let exp = expected(c);
-    if exp.outcome != Outcome::Ok {
+    if expected(c).outcome != Outcome::Ok {
         return;
     }
     let obs = observe(c, 0xC01);
+    let exp = crate::catalog::expected_as_stored(c);
     rep.eval();
     let pkt = match note_outcome(rep, c, &obs) {
         Some(p) => p.to_vec(),
